@@ -16,7 +16,7 @@ from vmon import common as C
 
 LEVEL = "exploration"
 TECHNIQUE = "runtime monitoring: icontract class invariant on State + shadow model after every operation; bounded-exhaustive operation sequences plus long random ones"
-LEVEL_TEXT = ("All sequences up to length 5 (quick) / 6 (thorough) over an 11-operation alphabet (append scalar/array/broadcast/length-1 arrays/defaults, kill first/last/middle, "
+LEVEL_TEXT = ("All sequences up to length 4 (quick) / 6 (thorough) over a 12-operation alphabet (append scalar/array/broadcast/length-1 arrays/zero-length arrays/defaults, kill first/last/middle, "
               "compactify, instance and particle item assignment) are executed on the real State with extra instance and particle variables; after every "
               "operation an icontract invariant and a pid-keyed shadow model are checked. Random sequences of length 50-300 extend the reach.")
 LEVEL_NOTE = "Trusts numpy and icontract; the record-level clause (pid strictly increasing, pid[k] >= k in every output record) is asserted by the shared output checker in the end-to-end checks (C06, C09, C14 ...)."
@@ -27,7 +27,7 @@ ASSUMPTIONS = ["single-threaded use of State (ladim has no threads)"]
 EXHAUSTIVE = {"quick": True, "thorough": True}
 TIMEOUT = {"quick": 600, "thorough": 3000}
 
-OPS = ["app_scalar", "app_array", "app_bcast", "app_default", "kill_first", "kill_last", "kill_mid", "compact", "set_inst", "set_part", "app_len1"]
+OPS = ["app_scalar", "app_array", "app_bcast", "app_default", "kill_first", "kill_last", "kill_mid", "compact", "set_inst", "set_part", "app_len1", "app_empty"]
 
 
 class InvariantBroken(Exception):
@@ -69,11 +69,11 @@ def _install():
 
 
 def gen_cases(tier: str, seed: int) -> list[dict[str, Any]]:
-    L = 5 if tier == "quick" else 6
+    L = 4 if tier == "quick" else 6
     cases = []
     for a, b in itertools.product(range(len(OPS)), repeat=2):
         cases.append(dict(kind="exhaustive", length=L, prefix=[a, b]))
-    nr = 32 if tier == "quick" else 1600
+    nr = 64 if tier == "quick" else 1600
     for i in range(nr):
         cases.append(dict(kind="random", seed=seed, idx=i, n=40, minlen=50, maxlen=300))
     return cases
@@ -120,6 +120,10 @@ def _apply(op: str, s, sh: Shadow, ctr: list[int], rng) -> None:
             xs = [base + 0.01 * i for i in range(3)]
             s.append(X=np.array(xs), Y=base, Z=0.0, age=1.5, w=base, tag=ctr[0])
             sh.append([dict(X=x, Y=base, Z=0.0, age=1.5, w=base, tag=ctr[0]) for x in xs])
+        elif op == "app_empty":  # a release that yields no particle (all mult = 0): zero-length arrays
+            ctr[0] -= 1
+            e = np.array([], float)
+            s.append(X=e, Y=e, Z=e, age=e, w=e, tag=np.array([], int))
         elif op == "app_len1":  # length-1 arrays broadcast against longer ones (instance and particle variable)
             xs = [base + 0.01 * i for i in range(3)]
             s.append(X=np.array(xs), Y=[base + 0.25, base + 0.26, base + 0.27], Z=[base + 0.5], age=np.array([2.5]), w=[base], tag=np.array([ctr[0]]))
@@ -233,7 +237,7 @@ def run_case(case: dict[str, Any], wd: Path) -> dict[str, Any]:
         rng = C.rng_for(case["seed"], 5, case["idx"])
         for _ in range(case["n"]):
             L = int(rng.integers(case["minlen"], case["maxlen"] + 1))
-            p = np.array([2, 2, 1, 1, 2, 2, 3, 3, 1, 1, 1], float)
+            p = np.array([2, 2, 1, 1, 2, 2, 3, 3, 1, 1, 1, 1], float)
             seq = [OPS[i] for i in rng.choice(len(OPS), size=L, p=p / p.sum())]
             nseq += 1
             before = sit.get("append_after_compactify", 0)
